@@ -480,7 +480,8 @@ def run(run: core.Run):
         # each distinct state counts as a distinct non-trivial case
         for i in range(res.get("states", 0)):
             run.keys.add(f"{flavour}-state-{i}")
-    names = ["a.yml", "a.yaml", "a.x", "a", "a.b.x", ".x", "dir.x/", "nodir"]
+    # (extensions that are substrings of "yml" / "yaml" are extensions of their own)
+    names = ["a.yml", "a.yaml", "a.x", "a", "a.b.x", ".x", "dir.x/", "nodir", "a.y", "a.ml", "a.ym", "a.l", "a.am", "a.ymlx"]
     cases = []
     for n in names:
         for ex in ("file", "dir", "missing"):
